@@ -27,7 +27,7 @@ def overlay(repo):
             from common import Undecided
             raise Undecided('lost anchor: src/%s.rs (needed by kani/%s)' % (mod, f))
         with open(src, 'a') as fh:
-            fh.write('\n#[cfg(kani)]\n#[path = "%s"]\nmod verif_kani;\n' % os.path.join(kdir, f))
+            fh.write('\n#[cfg(kani)]\n#[path = "%s"]\npub(crate) mod verif_kani;\n' % os.path.join(kdir, f))
         applied.append('src/%s.rs += mod verif_kani (%s)' % (mod, f))
     lib = os.path.join(repo, 'src/lib.rs')
     s = open(lib).read()
